@@ -38,6 +38,7 @@ func runC05(c *Ctx) {
 			c.check(ok, "C05.sum-pure", pk.pkg+"."+m, pos, "cannot write to the receiver's state", "writes to the running state: "+why)
 		}
 		c05Write(c, pk.pkg, pk.block)
+		c05GenericBlocks(c, pk.pkg, pk.block, pk.wordBits)
 		c05Finalize(c, pk.pkg, pk.block, pk.wordBits)
 		c05Reset(c, pk.pkg, pk.block, pk.size)
 	}
